@@ -230,12 +230,16 @@ fn get_configuration() -> Configuration {
 }
 
 fn render_block_reference(key: &Key, context: impl GraphContext) -> String {
+    // a destination that holds a space is only a destination between angle brackets
+    let destination = match key.to_string() {
+        url if url.contains(' ') => format!("<{}>", url),
+        url => url,
+    };
     format!(
         "[{}]({})",
         context.get_ref_text(key).unwrap_or_default(),
-        key
+        destination
     )
-    .to_string()
 }
 
 fn render(path: &NodePath, context: impl GraphContext) -> String {
